@@ -521,7 +521,7 @@ func runC09Case(seed int64, idx int) *c09Result {
 		var off float64 // exact origin in delivered ticks
 		off = float64(originS.DTS) * float64(wantRate) / float64(leadRate)
 		if variant == media.VarTS {
-			off = float64(originS.DTS * 90000 / leadRate) // the muxer floors to 90 kHz before the client sees it
+			off = float64(originS.DTS/leadRate*90000 + originS.DTS%leadRate*90000/leadRate) // the muxer floors to 90 kHz before the client sees it (split: wall-clock sized values overflow the product)
 		}
 		for k, ui := range per[ci] {
 			u := units[ui]
